@@ -270,6 +270,13 @@ static std::vector<Instance> instances(const std::string &tier) {
 		std::string n = name + "-b" + std::to_string(bound);
 		if(aligned) v.push_back(sched_instance<MtHarness<true>>(n, o, s, skew)); else v.push_back(sched_instance<MtHarness<false>>(n, o, s, skew));
 	};
+	// a ticket lock that has been through 2^32 - 1 acquisitions already: both counters stand at 0xFFFFFFFF, the next ticket
+	// drawn wraps to 0 while the holder still has the all-ones ticket
+	struct AgedTicket { frg::ticket_spinlock l; AgedTicket() { memset((void *)&l, 0xFF, sizeof l); } void lock() { l.lock(); } void unlock() { l.unlock(); } };
+	auto add_aged = [&](const std::string &name, int bound, Script s) {
+		SchedOptions o; o.bound = bound; o.horizon = 6000;
+		v.push_back(sched_instance<MtHarness<true, AgedTicket>>(name + "-b" + std::to_string(bound), o, s, (size_t)0));
+	};
 	auto add_spin = [&](const std::string &name, int bound, Script s, bool ticket) {
 		SchedOptions o; o.bound = bound; o.horizon = 6000;
 		std::string n = name + "-b" + std::to_string(bound);
@@ -332,6 +339,7 @@ static std::vector<Instance> instances(const std::string &tier) {
 	// happens-before edge between successive holders is the spinlock's, not the scheduler's
 	add_spin("H1-both-map-ticket-spinlock", th ? 2 : 1, mkscript({{A_(0, 1024), F_(0)}, {A_(0, 1024), F_(0)}}), true);
 	add_spin("H3-cross-thread-free-ticket-spinlock", th ? 2 : 1, mkscript({{A_(0, 1024), S_(0, 0), A_(1, 1024), F_(1)}, {V_(0, 0), F_(0)}}), true);
+	add_aged("H1-both-map-ticket-spinlock-counters-about-to-wrap", th ? 2 : 1, mkscript({{A_(0, 1024), F_(0)}, {A_(0, 1024), F_(0)}}));
 	add_spin("H1-both-map-simple-spinlock", th ? 5 : 4, mkscript({{A_(0, 1024), F_(0)}, {A_(0, 1024), F_(0)}}), false);
 	if(th) {
 		add("H1-both-map-all", 1000, mkscript({{A_(0, 1024), F_(0)}, {A_(0, 1024), F_(0)}}));
